@@ -756,10 +756,17 @@ func (f *FnEnc) evalClause(se *SpecEnv, c Clause) (formula string) {
 			switch e := r.(type) {
 			case specErr:
 				if e.gone && se.goal {
-					// a proof goal about a call the code no longer makes cannot
-					// be stated: it is reported as a failed obligation
+					// a proof goal about a call the code no longer makes (or
+					// a local variable it no longer has) cannot be stated: it
+					// is reported as a failed obligation
 					f.c.pendingGone = e.msg
 					formula = "false"
+					return
+				}
+				if e.gone {
+					// the same clause in assumption position (a loop invariant
+					// at the loop head): nothing is assumed
+					formula = "true"
 					return
 				}
 				panic(specErr{msg: fmt.Sprintf("%s:%d: %s (in %q)", c.File, c.Line, e.msg, c.Text)})
@@ -887,6 +894,20 @@ func (f *FnEnc) call(fr *Frame, st *State, R string, in ssa.Value, cc *ssa.CallC
 		default:
 			v := f.val(fr, cc.Value)
 			fnv = &v
+		}
+	}
+	// handing a pointer (or slice) into the elements of a guarded slice to a
+	// callee counts as an access to them
+	if fr == f.top {
+		if _, isBuiltin := cc.Value.(*ssa.Builtin); !isBuiltin {
+			for _, a := range args {
+				switch a.T.Underlying().(type) {
+				case *types.Pointer, *types.Slice:
+					if a.Loc == nil && len(a.L) > 0 {
+						f.guardedElems(fr, st, R, a.L[0], pos, "call")
+					}
+				}
+			}
 		}
 	}
 	f.topCallKey = ""
@@ -1172,7 +1193,9 @@ func (f *FnEnc) inline(fr *Frame, st *State, R string, callee *ssa.Function, arg
 // callAsserts emits `assert at call NAME#K` clauses of the enclosing
 // function's contract.
 func (f *FnEnc) callAsserts(fr *Frame, st *State, R string, short string, ord int, callee *ssa.Function, args []Val, pos token.Pos) {
+	f.curCalleeFull = callee.String()
 	f.callAssertsNamed(fr, st, R, short, ord, paramNames(callee), args, pos)
+	f.curCalleeFull = ""
 }
 
 func (f *FnEnc) callAssertsNamed(fr *Frame, st *State, R string, short string, ord int, names []string, args []Val, pos token.Pos) {
@@ -1181,7 +1204,9 @@ func (f *FnEnc) callAssertsNamed(fr *Frame, st *State, R string, short string, o
 		return
 	}
 	for _, ca := range con.CallAssert {
-		if ca.Callee != short || (ca.Ord != 0 && ca.Ord != ord) {
+		// (a call site is named by the callee's short name, or - to tell
+		// os.Open from (*os.Root).Open - by its full name)
+		if (ca.Callee != short && (f.curCalleeFull == "" || ca.Callee != f.curCalleeFull)) || (ca.Ord != 0 && ca.Ord != ord) {
 			continue
 		}
 		se := f.specEnvFor(fr, st, R)
